@@ -17,7 +17,7 @@ use sourmash::ffi::HashFunctions as FfiHashFunctions;
 use sourmash::sketch::minhash::{max_hash_for_scaled, scaled_for_max_hash, KmerMinHash, KmerMinHashBTree};
 use sourmash::signature::{Signature, SigsTrait};
 use sourmash::sketch::Sketch;
-use std::collections::BTreeMap;
+use std::collections::{BTreeMap, BTreeSet};
 use verif_harness::*;
 
 #[derive(Clone)]
@@ -64,6 +64,86 @@ fn parse_pairs(s: &str) -> Vec<(u64, u64)> {
         .collect()
 }
 
+
+/// the JSON text `Serialize` writes for a sketch with the given fields (hashes in the given order)
+fn sketch_json(num: u32, ksize: u32, seed: u64, max_hash: u64, m: &str, track: bool, items: &[(u64, u64)]) -> String {
+    let mut sorted: Vec<u64> = items.iter().map(|p| p.0).collect();
+    sorted.sort();
+    let md5 = KmerMinHash::builder().num(0u32).ksize(ksize).mins(sorted).build().md5sum();
+    let mins: Vec<String> = items.iter().map(|p| p.0.to_string()).collect();
+    let abs: Vec<String> = items.iter().map(|p| p.1.to_string()).collect();
+    format!(
+        "{{\"num\":{},\"ksize\":{},\"seed\":{},\"max_hash\":{},\"mins\":[{}],\"md5sum\":\"{}\",{}\"molecule\":\"{}\"}}",
+        num,
+        ksize,
+        seed,
+        max_hash,
+        mins.join(","),
+        md5,
+        if track { format!("\"abundances\":[{}],", abs.join(",")) } else { String::new() },
+        m
+    )
+}
+
+/// a sketch that is NOT made by `new` + insertions: the public builders (`b`: content handed over,
+/// the tree's `current_max` left at its default; `bc`: the tree's `current_max` given too) or
+/// `Deserialize` of a JSON document (`js`, hashes in the order given)
+fn build_reg(tree: bool, ctor: &str, max_hash: u64, num: u32, ksize: u32, m: &str, seed: u64, track: bool, items: &[(u64, u64)]) -> Option<Reg> {
+    Some(match (ctor, tree) {
+        ("js", false) => Reg::V(serde_json::from_str(&sketch_json(num, ksize, seed, max_hash, m, track, items)).unwrap()),
+        ("js", true) => Reg::T(serde_json::from_str(&sketch_json(num, ksize, seed, max_hash, m, track, items)).unwrap()),
+        ("b" | "bc", false) => Reg::V(
+            KmerMinHash::builder()
+                .num(num)
+                .ksize(ksize)
+                .hash_function(mol(m))
+                .seed(seed)
+                .max_hash(max_hash)
+                .mins(items.iter().map(|p| p.0).collect::<Vec<u64>>())
+                .abunds(if track { Some(items.iter().map(|p| p.1).collect::<Vec<u64>>()) } else { None })
+                .build(),
+        ),
+        ("b", true) => Reg::T(
+            KmerMinHashBTree::builder()
+                .num(num)
+                .ksize(ksize)
+                .hash_function(mol(m))
+                .seed(seed)
+                .max_hash(max_hash)
+                .mins(items.iter().map(|p| p.0).collect::<BTreeSet<u64>>())
+                .abunds(if track { Some(items.iter().cloned().collect::<BTreeMap<u64, u64>>()) } else { None })
+                .build(),
+        ),
+        ("bc", true) => Reg::T(
+            KmerMinHashBTree::builder()
+                .num(num)
+                .ksize(ksize)
+                .hash_function(mol(m))
+                .seed(seed)
+                .max_hash(max_hash)
+                .mins(items.iter().map(|p| p.0).collect::<BTreeSet<u64>>())
+                .abunds(if track { Some(items.iter().cloned().collect::<BTreeMap<u64, u64>>()) } else { None })
+                .current_max(items.iter().map(|p| p.0).max().unwrap_or(0))
+                .build(),
+        ),
+        _ => return None,
+    })
+}
+
+/// `Clone`, the `From` conversions to the other container type and back (by value / through the
+/// by-reference impl where there is one), `Serialize` -> `Deserialize`
+fn convert(r: &Reg, how: &str) -> Option<Reg> {
+    Some(match (how, r) {
+        ("clone", x) => x.clone(),
+        ("rt", Reg::V(x)) => Reg::V(KmerMinHash::from(KmerMinHashBTree::from(x.clone()))),
+        ("rtr", Reg::V(x)) => Reg::V(KmerMinHash::from(&KmerMinHashBTree::from(x.clone()))),
+        ("rt", Reg::T(x)) => Reg::T(KmerMinHashBTree::from(KmerMinHash::from(x.clone()))),
+        ("rtr", Reg::T(x)) => Reg::T(KmerMinHashBTree::from(KmerMinHash::from(x))),
+        ("serde", Reg::V(x)) => Reg::V(serde_json::from_str(&serde_json::to_string(x).unwrap()).unwrap()),
+        ("serde", Reg::T(x)) => Reg::T(serde_json::from_str(&serde_json::to_string(x).unwrap()).unwrap()),
+        _ => return None,
+    })
+}
 
 // ------------------------------------------------------------- Signature::add_sequence / add_protein
 
@@ -448,7 +528,7 @@ fn step(st: &mut St, ws: &[&str]) -> String {
     let n = |i: usize| -> u64 { ws[i].parse().unwrap() };
     // an op on a register that does not exist (its producer failed earlier in the case)
     let reg_args: &[usize] = match ws[0] {
-        "copy" => &[2],
+        "copy" | "conv" => &[2],
         "obs" | "cobs" | "params" | "cparams" | "add" | "cadd" | "addm" | "caddm" | "rmmany" | "crmmany" | "csetab" => &[1],
         "merge" | "cmerge" | "addfrom" | "caddfrom" | "rmfrom" | "crmfrom" | "inflate" | "infab" | "isect" | "isize" | "cisize"
         | "cc" | "ccc" | "ccompat" => &[1, 2],
@@ -458,7 +538,7 @@ fn step(st: &mut St, ws: &[&str]) -> String {
     if reg_args.iter().any(|i| !st.regs.contains_key(&n(*i))) {
         return "bad-reg".into();
     }
-    if ws[0].starts_with('c') && !matches!(ws[0], "case" | "copy" | "cc") {
+    if ws[0].starts_with('c') && !matches!(ws[0], "case" | "copy" | "cc" | "conv") {
         return cstep(st, ws).unwrap_or_else(|| "bad-op".into());
     }
     match ws[0] {
@@ -508,6 +588,34 @@ fn step(st: &mut St, ws: &[&str]) -> String {
             st.regs.insert(n(1), r);
             "ok".into()
         }
+        // build R ctor max_hash num ksize mol seed track items : a sketch handed over ready-made to a
+        // public constructor (`b` builder, `bc` builder incl. the tree's current_max, `js` JSON document)
+        "build" => match build_reg(st.tree, ws[2], n(3), n(4) as u32, n(5) as u32, ws[6], n(7), ws[8] == "1", &parse_pairs(ws[9])) {
+            Some(r) => {
+                let s = obs(&r);
+                st.regs.insert(n(1), r);
+                s
+            }
+            None => "bad-op".into(),
+        },
+        "newdef" => {
+            let r = if st.tree { Reg::T(KmerMinHashBTree::default()) } else { Reg::V(KmerMinHash::default()) };
+            st.regs.insert(n(1), r);
+            "ok".into()
+        }
+        // conv R1 R2 how : R1 := R2 through Clone / the From conversions there and back / serde
+        "conv" => match convert(&st.regs[&n(2)], ws[3]) {
+            Some(r) => {
+                let p = match &r {
+                    Reg::V(x) => params(x.num(), x.max_hash(), x.ksize() as u64, x.seed(), mol_name(&x.hash_function()), x.track_abundance()),
+                    Reg::T(x) => params(x.num(), x.max_hash(), x.ksize() as u64, x.seed(), mol_name(&x.hash_function()), x.track_abundance()),
+                };
+                let s = format!("{} {}", p, obs(&r));
+                st.regs.insert(n(1), r);
+                s
+            }
+            None => "bad-op".into(),
+        },
         "params" => match &st.regs[&n(1)] {
             Reg::V(x) => params(x.num(), x.max_hash(), x.ksize() as u64, x.seed(), mol_name(&x.hash_function()), x.track_abundance()),
             Reg::T(x) => params(x.num(), x.max_hash(), x.ksize() as u64, x.seed(), mol_name(&x.hash_function()), x.track_abundance()),
@@ -750,6 +858,84 @@ fn emit_add(o: &mut Out, r: &mut Rng, capi: bool, reg: u64, it: &[(u64, u64)]) {
     }
 }
 
+
+/// a removal / insertion list as callers hand them over: not sorted, some entries repeated
+fn dup_shuffle(r: &mut Rng, ks: &[u64]) -> Vec<u64> {
+    let mut v: Vec<u64> = ks.to_vec();
+    for &k in ks {
+        if r.chance(1, 3) {
+            v.push(k);
+            if r.chance(1, 4) {
+                v.push(k);
+            }
+        }
+    }
+    for i in (1..v.len()).rev() {
+        let j = r.below(i as u64 + 1) as usize;
+        v.swap(i, j);
+    }
+    v
+}
+
+/// what a sketch with ceiling `mh` (0: none) and bound `num` (0: none) holds after the insertions
+/// `it` (not used for sketches with both bounds)
+fn content(it: &[(u64, u64)], mh: u64, num: u64) -> Vec<(u64, u64)> {
+    let mut m: BTreeMap<u64, u64> = BTreeMap::new();
+    for (h, a) in it {
+        if mh == 0 || *h <= mh {
+            *m.entry(*h).or_insert(0) += a;
+        }
+    }
+    let mut v: Vec<(u64, u64)> = m.into_iter().collect();
+    if num != 0 {
+        v.truncate(num as usize);
+    }
+    v
+}
+
+/// register `reg` := a sketch with parameters `p` standing for the insertions `it`: `new`/`newmh` +
+/// insertions, or the content handed over ready-made to a public constructor (builder with and
+/// without the tree's `current_max`, a JSON document listing the hashes in any order); afterwards
+/// sometimes sent through `Clone`, the `From` conversions (there and back) or a serde round trip
+fn make_operand(o: &mut Out, r: &mut Rng, capi: bool, tree: bool, reg: u64, p: &Params, it: &[(u64, u64)]) {
+    let hybrid = p.num != 0 && p.ceiling() != 0;
+    if !hybrid && r.chance(1, 4) {
+        let mut c = content(it, p.ceiling(), p.num);
+        // a num tree sketch whose current_max was left at 0 refuses smaller hashes later on
+        // (findings/C03.json, corpus/C03/builder-stale-max.ops): the builder is given the field there
+        let ctor = match r.below(4) {
+            0 => "js",
+            1 => "bc",
+            _ if tree && p.num != 0 => "bc",
+            _ => "b",
+        };
+        if ctor == "js" {
+            for i in (1..c.len()).rev() {
+                let j = r.below(i as u64 + 1) as usize;
+                c.swap(i, j);
+            }
+        }
+        o.op(&format!(
+            "build {} {} {} {} {} {} {} {} {}",
+            reg, ctor, p.ceiling(), p.num, p.ksize, p.mol, p.seed, p.track as u8, show_items(&c)
+        ));
+    } else {
+        emit(o, r, capi, &p.line(reg));
+        emit_add(o, r, capi, reg, it);
+    }
+    if r.chance(1, 5) {
+        // the conversions re-derive the ceiling from scaled(): only canonical ceilings survive them
+        let canonical = p.max_hash.is_none();
+        let how = match r.below(4) {
+            1 if canonical || hybrid => "rt",
+            2 if canonical || hybrid => "rtr",
+            3 => "serde",
+            _ => "clone",
+        };
+        o.op(&format!("conv {} {} {}", reg, reg, how));
+    }
+}
+
 const REGIMES: [&str; 6] = ["disjoint", "nested", "superset", "overlap", "empty", "identical"];
 
 fn second_keys(r: &mut Rng, regime: &str, u: &[u64], a: &[u64]) -> Vec<u64> {
@@ -903,7 +1089,7 @@ fn gen(a: &Args) {
     gen_sig_cases(&mut o, &mut r, ncases / 6);
     for ci in 0..ncases {
         let ty = if ci % 2 == 0 { "vec" } else { "tree" };
-        let kind = r.below(10);
+        let kind = r.below(12);
         // the C API knows the vector type only; half of its cases go (mostly) through it
         let capi = ty == "vec" && r.chance(1, 2);
         // parameters of the first operand
@@ -1038,6 +1224,77 @@ fn gen(a: &Args) {
             }
             continue;
         }
+        if kind >= 10 {
+            // ---- pouring between sketches of DIFFERENT parameters through the entry points that check
+            // nothing (add_from, add_many, add_many_with_abund, remove_from, remove_many, set_abundances;
+            // native and C API): every hash goes through the receiver's own admission rule
+            let src_num = r.chance(1, 3);
+            let mut ps = Params {
+                scaled: if src_num { 0 } else { *r.pick(&[1u64, 2, 1000]) },
+                num: if src_num { *r.pick(&[1u64, 3, 8]) } else { 0 },
+                ksize: pa.ksize,
+                mol: pa.mol,
+                seed: pa.seed,
+                track: r.chance(1, 2),
+                max_hash: None,
+            };
+            if !src_num && r.chance(1, 5) {
+                ps.max_hash = Some(odd_max_hash(&mut r));
+            }
+            if r.chance(1, 4) {
+                match r.below(3) {
+                    0 => ps.ksize = if pa.ksize == 21 { 31 } else { 21 },
+                    1 => ps.mol = mols[r.below(4) as usize],
+                    _ => ps.seed = if pa.seed == 42 { 7 } else { 42 },
+                }
+            }
+            let mut u = u.clone();
+            for x in universe(&mut r, ps.ceiling()) {
+                if !u.contains(&x) {
+                    u.push(x);
+                }
+            }
+            let empty = r.chance(1, 2);
+            o.case(&format!("{} pour {} src num={} mh={}{}", ty, tag, ps.num, ps.ceiling(), if empty { " empty" } else { "" }));
+            let tree = ty == "tree";
+            if empty {
+                emit(&mut o, &mut r, capi, &pa.line(0));
+            } else {
+                let ka = subset(&mut r, &u, 1, 2);
+                let ia = items(&mut r, &ka, 4);
+                make_operand(&mut o, &mut r, capi, tree, 0, &pa, &ia);
+            }
+            let kb = subset(&mut r, &u, 3, 4);
+            let ib = items(&mut r, &kb, 4);
+            make_operand(&mut o, &mut r, capi, tree, 1, &ps, &ib);
+            emit(&mut o, &mut r, capi, "params 0");
+            emit(&mut o, &mut r, capi, "params 1");
+            o.op("copy 3 0");
+            emit(&mut o, &mut r, capi, "addfrom 3 1");
+            emit(&mut o, &mut r, capi, "obs 3");
+            emit(&mut o, &mut r, capi, "isize 3 0");
+            emit(&mut o, &mut r, capi, "rmfrom 3 1");
+            o.op("copy 4 0");
+            let l = format!("addm 4 {}", show_nats(dup_shuffle(&mut r, &kb)));
+            emit(&mut o, &mut r, capi, &l);
+            let ku = subset(&mut r, &u, 1, 2);
+            let l = format!("rmmany 4 {}", show_nats(dup_shuffle(&mut r, &ku)));
+            emit(&mut o, &mut r, capi, &l);
+            o.op("copy 5 0");
+            emit(&mut o, &mut r, capi, &format!("add 5 {}", show_items(&ib)));
+            emit(&mut o, &mut r, capi, "cc 5 3 0");
+            if ty == "vec" {
+                o.op("copy 6 0");
+                o.op(&format!("csetab 6 {} {}", r.below(2), show_items(&ib)));
+            }
+            // the other direction: the source sketch receives
+            o.op("copy 7 1");
+            emit(&mut o, &mut r, capi, "addfrom 7 0");
+            emit(&mut o, &mut r, capi, "rmfrom 7 0");
+            emit(&mut o, &mut r, capi, "obs 0");
+            emit(&mut o, &mut r, capi, "obs 1");
+            continue;
+        }
         // ---- compatible pair / triple
         let regime = REGIMES[r.below(REGIMES.len() as u64) as usize];
         let mut pb = pa.clone();
@@ -1052,12 +1309,9 @@ fn gen(a: &Args) {
         let kc = subset(&mut r, &u, 1, 2);
         let (ia, ib, ic) = (items(&mut r, &ka, 5), items(&mut r, &kb, 5), items(&mut r, &kc, 5));
         o.case(&format!("{} {} {}", ty, regime, tag));
-        emit(&mut o, &mut r, capi, &pa.line(0));
-        emit(&mut o, &mut r, capi, &pb.line(1));
-        emit(&mut o, &mut r, capi, &pc.line(2));
-        emit_add(&mut o, &mut r, capi, 0, &ia);
-        emit_add(&mut o, &mut r, capi, 1, &ib);
-        emit_add(&mut o, &mut r, capi, 2, &ic);
+        make_operand(&mut o, &mut r, capi, ty == "tree", 0, &pa, &ia);
+        make_operand(&mut o, &mut r, capi, ty == "tree", 1, &pb, &ib);
+        make_operand(&mut o, &mut r, capi, ty == "tree", 2, &pc, &ic);
         emit(&mut o, &mut r, capi, "params 0");
         // sizes and intersections, both argument orders
         for op in ["isect 0 1", "isect 1 0", "isize 0 1", "isize 1 0", "cc 0 1 0", "cc 1 0 0", "cc 0 1 1", "isect 0 0", "isize 1 1"] {
@@ -1087,7 +1341,9 @@ fn gen(a: &Args) {
         o.op("copy 10 0");
         emit(&mut o, &mut r, capi, "rmfrom 10 1");
         o.op("copy 11 0");
-        let l = format!("rmmany 11 {}", show_nats(subset(&mut r, &u, 1, 2)));
+        // the removal list as a caller hands it over: any order, entries repeated
+        let kr = subset(&mut r, &u, 1, 2);
+        let l = format!("rmmany 11 {}", show_nats(dup_shuffle(&mut r, &kr)));
         emit(&mut o, &mut r, capi, &l);
         o.op("copy 12 0");
         emit(&mut o, &mut r, capi, "addfrom 12 1");
